@@ -604,6 +604,12 @@ func (fv *FnVerifier) execBinOp(x *ssa.BinOp, st *State) {
 	if err != nil {
 		unsupported("%v", err)
 	}
+	if !m.BV {
+		if f, ok := map[string]string{"&": "bitand", "|": "bitor", "^": "bitxor", "&^": "bitandnot"}[op]; ok {
+			fv.q.declareFun(fmt.Sprintf("%s%d", f, bits), []string{"Int", "Int"}, "Int")
+			fv.note("int mode: general bitwise " + op + " is an uninterpreted function with sound bounds (use mode bv for bit-exact reasoning)")
+		}
+	}
 	r := fv.q.bind(x.Name(), fv.sortOf(x.Type()), res)
 	for _, f := range facts {
 		fv.q.assume(strings.ReplaceAll(f, res, r))
